@@ -37,7 +37,7 @@ def run(ck, models, tier):
                 dst, cnt = ev.extra["dst"], ev.extra["count"]
                 src = ev.extra.get("src")
                 se = src.e if isinstance(src, Int) else src
-                ok_dst = self_field(dst.e) == g.addr and g.addr is not None
+                ok_dst = self_field(resolve_alias(v, dst)[0].e) == g.addr and g.addr is not None
                 ok_cnt = (self_field(cnt.e) == g.len and g.len is not None) or (
                     g.len_is_saved_len and cnt.e.op == "vec_len" and self_field(cnt.e.args[0]) == g.saved)
                 ok_src = False
